@@ -373,6 +373,12 @@ func (c *core) fastForward(block *hg.Block, frame *hg.Frame) error {
 		return err
 	}
 
+	// The response may carry any number of other entries next to the
+	// signatures that were counted (unknown keys, values that do not verify).
+	// The block is stored, used as anchor and served to other nodes as it is
+	// recorded here, so only the verified signatures of validators are kept.
+	block = verifiedSignaturesOnly(block, peers.NewPeerSet(frame.Peers))
+
 	err = c.hg.Reset(block, frame)
 	if err != nil {
 		return err
@@ -401,6 +407,29 @@ func (c *core) fastForward(block *hg.Block, frame *hg.Frame) error {
 	}
 
 	return nil
+}
+
+// verifiedSignaturesOnly returns a copy of a Block that carries, of the
+// signatures attached to it, only those that verify against its body and whose
+// signer belongs to peerSet (one per validator).
+func verifiedSignaturesOnly(block *hg.Block, peerSet *peers.PeerSet) *hg.Block {
+	res := &hg.Block{
+		Body:       block.Body,
+		Signatures: make(map[string]string),
+	}
+	for _, s := range block.GetSignatures() {
+		validatorHex := s.ValidatorHex()
+		if _, ok := peerSet.ByPubKey[validatorHex]; !ok {
+			continue
+		}
+		if _, ok := res.Signatures[validatorHex]; ok {
+			continue
+		}
+		if ok, _ := block.Verify(s); ok {
+			res.Signatures[validatorHex] = s.Signature
+		}
+	}
+	return res
 }
 
 // checkFastForward verifies, without any side-effect, that a Block and Frame
